@@ -23,7 +23,7 @@ var (
 	h2cDstLens = []int{1, 2, 15, 16, 17, 31, 32, 33, 49, 63, 64, 65, 127, 128, 200, 253, 254, 255, 256, 257, 258, 300, 511, 512, 1000}
 	// DST lengths at which a length kept in 16 (or 8) bits wraps
 	h2cHugeDstLens = []int{65535, 65536, 65537, 65551, 65791, 65792, 131072, 131088, 196863}
-	h2cLayouts = []string{"exact", "spare1", "spare8", "spare64", "interior", "overlap"}
+	h2cLayouts = []string{"exact", "spare1", "spare8", "spare64", "interior", "overlap", "adjacent"}
 )
 
 type h2cCase struct {
@@ -55,7 +55,7 @@ func layoutSlice(content []byte, layout string, fill byte) (s []byte, backing []
 	pre, spare := 0, 0
 
 	switch layout {
-	case "overlap":
+	case "overlap", "adjacent":
 		spare = 8
 	case "spare1":
 		spare = 1
@@ -204,6 +204,18 @@ func h2cInputs(cs *h2cCase, fill byte) (msg, dst, msgBack, dstBack []byte) {
 		return msg, dst, buf, buf
 	}
 
+	if cs.Layout == "adjacent" && !cs.NilMsg && !cs.NilDst {
+		// message and DST are adjacent windows of ONE caller buffer: msg = buf[:m] (its capacity runs over the DST),
+		// dst = buf[m:]
+		d, m := mon.UnH(cs.Dst), mon.UnH(cs.Msg)
+		buf := make([]byte, 0, len(d)+len(m)+16)
+		buf = append(append(buf, m...), d...)
+		msg = buf[:len(m)]
+		dst = buf[len(m):len(m)+len(d)]
+
+		return msg, dst, buf[:cap(buf)], buf[:cap(buf)]
+	}
+
 	if !cs.NilMsg {
 		msg, msgBack = layoutSlice(mon.UnH(cs.Msg), cs.Layout, fill)
 	}
@@ -300,7 +312,7 @@ func h2cRunHistory(c *mon.Ctx, cs *h2cCase) bool {
 			jobs[i].want = h2cWant(cs.Fn, jobs[i].m, jobs[i].d)
 		}
 
-		start := make(chan struct{})
+		line := mon.StartLine(len(jobs))
 
 		var wg sync.WaitGroup
 
@@ -310,7 +322,7 @@ func h2cRunHistory(c *mon.Ctx, cs *h2cCase) bool {
 			go func(j *job) {
 				defer wg.Done()
 				defer func() { j.pan = recover() }()
-				<-start
+				line()
 
 				for rep := 0; rep < 60; rep++ {
 					j.got = h2cCallBytes(cs.Fn, j.m, j.d)
@@ -325,7 +337,6 @@ func h2cRunHistory(c *mon.Ctx, cs *h2cCase) bool {
 			}(j)
 		}
 
-		close(start)
 		wg.Wait()
 
 		for i, j := range jobs {
